@@ -259,7 +259,7 @@ def cmd_check(pid, tier, seed):
                 dict(name=x["name"], property=x["property"], location="%s:%s" % (x["file"], x["line"])) for x in tr.get("checks", []) if x["verdict"] == "refuted"])
             suffix = ""
             if vals is None:
-                rep["replay"] = dict(executed=False, note="CBMC produced no trace for this obligation")
+                rep["replay"] = dict(executed=False, note="CBMC produced no trace for this obligation" + ((": " + str(tr.get("reason"))[:600]) if tr.get("reason") else ""))
                 suffix = " no-failing-input-found"
             else:
                 rep["inputs"] = vals
